@@ -22,9 +22,11 @@ SOLVERS = {
 
 
 def speclib():
-    if os.path.exists(SPECLIB_PATH):
-        return open(SPECLIB_PATH).read()
-    return ""
+    return open(SPECLIB_PATH).read() if os.path.exists(SPECLIB_PATH) else ""
+
+
+def spec_module(name):
+    return open(os.path.join(ROOT, "spec", name + ".smt2")).read()
 
 
 def sstr(s: str) -> str:
@@ -85,12 +87,53 @@ class Result:
         self.path = path
 
 
+def _parse_status(out):
+    for line in out.split("\n"):
+        line = line.strip()
+        if line in ("sat", "unsat"):
+            return line
+        if line.startswith("(error") or line == "unsupported":
+            return "error"
+    return "unknown"
+
+
+def race(names, path, timeout):
+    """Run several solvers on one file concurrently; the first definitive answer wins and the others are killed.
+    Returns (answers dict name -> (status, output, seconds), attempts list)."""
+    procs = {}
+    t0 = time.time()
+    for n in names:
+        procs[n] = subprocess.Popen(SOLVERS[n](path, timeout), stdout=subprocess.PIPE, stderr=subprocess.DEVNULL, text=True)
+    answers, attempts = {}, []
+    pending = dict(procs)
+    while pending and time.time() - t0 < timeout + 5:
+        for n, p in list(pending.items()):
+            if p.poll() is not None:
+                out = (p.stdout.read() or "").strip()
+                st = _parse_status(out)
+                attempts.append((n, st, round(time.time() - t0, 3)))
+                del pending[n]
+                if st in ("sat", "unsat"):
+                    answers[n] = (st, out, time.time() - t0)
+        if answers:
+            break
+        time.sleep(0.01)
+    # give the others a short grace period only to detect disagreement cheaply, then kill them
+    for n, p in pending.items():
+        try:
+            p.kill()
+            p.wait(timeout=2)
+        except Exception:
+            pass
+        attempts.append((n, "cancelled" if answers else "timeout", round(time.time() - t0, 3)))
+    return answers, attempts
+
+
 def solve_text(text, timeout=10.0, keep_dir=None, name="vc", order=None, quick_first=True):
     """Run the portfolio on one self-contained SMT-LIB text.
 
-    First z3-5.1.0 alone with a short budget (almost everything is decided in
-    milliseconds); what it leaves open goes to the other two in parallel.
-    A sat/unsat disagreement between solvers yields status 'anomaly'.
+    First z3-5.1.0 alone with a short budget (almost everything is decided in milliseconds); what it
+    leaves open goes to all solvers concurrently, first definitive answer wins.
     """
     d = keep_dir or tempfile.mkdtemp(prefix="pyvc_", dir=os.environ.get("PYVC_TMP", "/dev/shm" if os.path.isdir("/dev/shm") else None))
     os.makedirs(d, exist_ok=True)
@@ -100,34 +143,17 @@ def solve_text(text, timeout=10.0, keep_dir=None, name="vc", order=None, quick_f
     attempts = []
     order = order or ["z3-5.1.0", "z3-4.8.12", "cvc5-1.0.3"]
     first = order[0]
-    st, out, dt = run_solver(first, path, min(timeout, 5.0) if quick_first else timeout)
+    budget = min(timeout, 1.5) if (quick_first and len(order) > 1) else timeout
+    st, out, dt = run_solver(first, path, budget)
     attempts.append((first, st, round(dt, 3)))
-    res = None
     if st in ("sat", "unsat"):
         res = Result(st, first, dt, out, attempts, path)
+    elif len(order) == 1:
+        res = Result("unknown", "", dt, out, attempts, path)
     else:
-        rest = order[1:] + ([first] if quick_first and timeout > 5.0 else [])
-        if not rest:
-            res = Result("unknown", "", dt, out, attempts, path)
-            if keep_dir is None:
-                try:
-                    os.remove(path)
-                    os.rmdir(d)
-                except OSError:
-                    pass
-            return res
-        with ThreadPoolExecutor(len(rest)) as ex:
-            futs = {n: ex.submit(run_solver, n, path, timeout) for n in rest}
-            answers = {}
-            for n, f in futs.items():
-                s2, o2, d2 = f.result()
-                attempts.append((n, s2, round(d2, 3)))
-                if s2 in ("sat", "unsat"):
-                    answers[n] = (s2, o2, d2)
-        kinds = {a[0] for a in answers.values()}
-        if len(kinds) > 1:
-            res = Result("anomaly", ",".join(answers), 0.0, repr(answers), attempts, path)
-        elif kinds:
+        answers, att2 = race(order, path, timeout)
+        attempts.extend(att2)
+        if answers:
             n = next(iter(answers))
             res = Result(answers[n][0], n, answers[n][2], answers[n][1], attempts, path)
         else:
